@@ -54,6 +54,8 @@ def random_sparse(rng, T, C):
         d[int(rng.integers(0, T))] = 0                     # a fully pruned frame: every entry at the floor
     if rng.random() < 0.3:
         d[int(rng.integers(0, T)), int(rng.integers(0, C))] = float(rng.uniform(20, 40))    # a very confident frame far above the others
+    if rng.random() < 0.3:
+        d[int(rng.integers(0, T)), int(rng.integers(0, C))] = -10.0 ** float(rng.uniform(-12, -6))    # a genuine stored logit next to (but not) zero
     if rng.random() < 0.5:
         d = d.astype(np.float32)                           # what the OCR engine emits
     return sparse.csc_matrix(d)
